@@ -160,6 +160,22 @@ func (u *Unit) evalSpec(env *SpecEnv, e Expr) Value {
 	case *EUnary:
 		v := u.evalSpec(env, x.X)
 		switch x.Op {
+		case "*":
+			// dereference of a pointer to a non-array value
+			if v.P != nil && v.T == nil {
+				// address of a field/element (e.g. &v.maxHeap handed to a pointer-receiver method)
+				pt, ok := v.Ty.Underlying().(*types.Pointer)
+				if !ok || v.P.Kind != PCell {
+					u.specErr("dereference of a local or element address in a contract")
+				}
+				h := env.heapFor("P", v.P.Elem)
+				return Value{T: u.applyPath(Select(h, v.P.Ref), v.P.Path), Ty: pt.Elem()}
+			}
+			if pt, ok := v.Ty.Underlying().(*types.Pointer); ok {
+				h := env.heapFor("P", pt.Elem())
+				return Value{T: Select(h, v.T), Ty: pt.Elem()}
+			}
+			u.specErr("dereference of %s", v.Ty)
 		case "!":
 			return Value{T: Not(v.T), Ty: boolType}
 		case "-":
@@ -363,7 +379,14 @@ func (u *Unit) evalBinary(env *SpecEnv, x *EBinary) Value {
 	switch x.Op {
 	case "==", "!=":
 		var eq *Term
-		if isUntypedNil(a.Ty) {
+		if (a.P != nil && a.T == nil) || (b.P != nil && b.T == nil) {
+			// the address of a field or element is never nil
+			if isUntypedNil(a.Ty) || isUntypedNil(b.Ty) {
+				eq = False
+			} else {
+				u.specErr("comparison of interior addresses in a contract")
+			}
+		} else if isUntypedNil(a.Ty) {
 			eq = u.eqTerms(env.s, b.Ty, b.T, u.nilOf(b.Ty), b.Ty)
 		} else if isUntypedNil(b.Ty) {
 			eq = u.eqTerms(env.s, a.Ty, a.T, u.nilOf(a.Ty), a.Ty)
